@@ -32,6 +32,9 @@ def run(prog, rep, tier, snap):
     rep.call(fillers.r09_9, prog, rep)
     rep.rule("R09.10", "the INTERVAL/BYMONTH congruence check looks at the month the fuel-less walk starts from", 1)
     rep.call(fillers.r09_10, prog, rep)
+    from ..rules import bitint as _bitint
+    rep.rule("R19.12", "the cursor the congruence check reads the month off is member + 1 in both representations (shared with C19)", 2)
+    rep.call(_bitint.r19_12, prog, rep)
     rep.rule("R09.5", "divisions by a month length that can be 0 are guarded", 3)
     rep.call(fillers.r09_5, prog, rep)
     rep.rule("R09.7", "an offset day-of-year is bounded above before the remainder-table lookup", 1)
